@@ -21,7 +21,9 @@ pub fn text_check(bytes: &[u8], loc: &mut Local) {
     let Ok(lay) = layout(bytes) else { return };
     let Decoded::Ok(frame) = decode(bytes) else { return };
     loc.inc("accepted");
+    let mark = crate::common::unknown_variant_mark();
     let want = render(&frame, cf_of(&frame));
+    let unjudged = crate::common::unknown_variant_mark() != mark;
     let f2 = adsb_deku::Frame { df: frame.df.clone(), crc: frame.crc };
     let got = match guarded(move || f2.to_string()) {
         Ok(s) => s,
@@ -30,6 +32,11 @@ pub fn text_check(bytes: &[u8], loc: &mut Local) {
             return;
         }
     };
+    if unjudged {
+        // the reference does not know the decoded variant: a panic above is still a violation, the text is not judged
+        loc.inc("unjudged_unknown_variant");
+        return;
+    }
     if got != want {
         // first differing line
         let (mut a, mut b) = (String::new(), String::new());
